@@ -27,12 +27,13 @@ func atlasEnv(srv *atlasfake.Server, dir string) []string {
 	return []string{"HTTPS_PROXY=" + srv.ProxyURL(), "https_proxy=" + srv.ProxyURL(), "HTTP_PROXY=" + srv.ProxyURL(), "http_proxy=" + srv.ProxyURL(), "NO_PROXY=", "no_proxy=", "SSL_CERT_FILE=" + ca, "SSL_CERT_DIR=/nonexistent"}
 }
 
-// tmpLeft lists what is left under the CLI's private TMPDIR (dir/tmp).
+// tmpLeft lists the files left under the CLI's private TMPDIR (dir/tmp), at any depth.
 func tmpLeft(dir string) []string {
 	root := filepath.Join(dir, "tmp")
 	var names []string
 	filepath.WalkDir(root, func(p string, d os.DirEntry, err error) error {
-		if err == nil && p != root {
+		// files only, at any depth: an (empty) private directory is not a downloaded log file
+		if err == nil && p != root && !d.IsDir() {
 			rel, _ := filepath.Rel(root, p)
 			names = append(names, rel)
 		}
